@@ -46,12 +46,17 @@ Proof. exact parse_json_print'. Qed.
 Theorem C12_json_too_deep : forall v, wf_lex' v = true -> (recursion_limit <= nest v)%nat ->
   parse_json (print_json v) = None.
 Proof. exact parse_json_too_deep'. Qed.
-(* a serde_json::Value (sorted keys) is a fixed point of the BTreeMap normalisation *)
+(* a serde_json::Value (pairwise distinct keys, in any order: this build's serde_json keeps insertion
+   order) is a fixed point of the normalisation; a duplicate key keeps its first position and takes
+   the last value *)
 Theorem C12_value_normal : forall v, wf_value v = true -> normalize v = v.
 Proof. exact normalize_wf. Qed.
 Print Assumptions C12_json_roundtrip.
 Print Assumptions C12_json_too_deep.
+Theorem C12_value_dup_last : forall k v w, normalize (JObj [(k, v); (k, w)]) = JObj [(k, normalize w)].
+Proof. exact normalize_dup_last. Qed.
 Print Assumptions C12_value_normal.
+Print Assumptions C12_value_dup_last.
 
 (* every frame whose meta nests at most 126 levels decodes to the identical frame; a deeper one
    does not decode at all - deserialize_frame would panic on every later read *)
